@@ -328,7 +328,30 @@ def _kind(fld):
     return 'uint'
 
 
+def _transfer_length_ext(tree, ob):
+    ''' RFC 9174 4.3.3 / 9.4: the Transfer Length extension is transfer extension type 0x0001 and its value is one 64-bit
+    unsigned total length; the extension item header is flags (1 octet), type (2), length (2). '''
+    EXT = 'tcpcl/extend.py'
+    binds = [(lo, up, kws, node) for (lo, up, kws, node) in schema.bindings(tree, EXT) if up == 'TransferTotalLength']
+    if len(binds) != 1 or binds[0][0] != 'TransferExtendHeader' or binds[0][2].get('type') != 1:
+        ob.violate(EXT, 'TransferTotalLength', 'bind_extension(...)', 'the Transfer Length extension is not bound to transfer extension type 0x0001', binds[0][3] if binds else tree.klass(EXT, 'TransferTotalLength'))
+    else:
+        ob.site(EXT, binds[0][3], 'Transfer Length = transfer extension type 0x0001')
+    flds = schema.fields_desc(tree, EXT, 'TransferTotalLength')
+    if len(flds) != 1 or flds[0].name != 'total_length' or flds[0].width != 8:
+        ob.violate(EXT, 'TransferTotalLength', 'fields_desc', 'the Transfer Length value is not one 64-bit unsigned integer: {}'.format([(f.name, f.width) for f in flds]), tree.klass(EXT, 'TransferTotalLength'))
+    else:
+        ob.site(EXT, tree.klass(EXT, 'TransferTotalLength'), 'Transfer Length value: one 64-bit integer')
+    hdr = schema.fields_desc(tree, MSGS, 'TransferExtendHeader')
+    shape = [(f.name, f.width) for f in hdr if f.width is not None][:3]
+    if [w for (n_, w) in shape] != [1, 2, 2]:
+        ob.violate(MSGS, 'TransferExtendHeader', 'fields_desc', 'the extension item header is not flags(1) type(2) length(2): {}'.format(shape), tree.klass(MSGS, 'TlvHead') if tree.has_class(MSGS, 'TlvHead') else None)
+    else:
+        ob.site(MSGS, tree.klass(MSGS, 'TransferExtendHeader'), 'extension item header 1/2/2 octets')
+
+
 def c04h(tree, ob):
+    _transfer_length_ext(tree, ob)
     binds = [(lo, up, kws, node) for (lo, up, kws, node) in schema.bindings(tree, MSGS) if lo == 'MessageHead']
     table = {}
     for (lo, up, kws, node) in binds:
